@@ -13,10 +13,11 @@ def run_case(case):
     from labrea.cache import Cache, CacheGetFailure
     script = list(case.get("faults", []))
     store = {}
-    calls = {"body": 0, "effect": 0}
+    calls = {"body": 0, "effect": 0, "backend": 0}
 
     class Scripted(Cache):
         def _next(self):
+            calls["backend"] += 1
             return script.pop(0) if script else "behave"
 
         def get(self, e, o):
@@ -48,6 +49,18 @@ def run_case(case):
         o = dict(step["options"])
         want = (o["A"], o.get("B", 0)) if "A" in o else "err"
         before = dict(calls)
+        cache_off = step.get("ctx") == "cache" or o.get("LABREA", {}).get("CACHE", {}).get("DISABLED") or o.get("LABREA", {}).get("CACHE", {}).get("DISABLE")
+        try:
+            if step.get("ctx") == "cache":
+                with lc.disabled():
+                    d.validate(o)
+            else:
+                d.validate(o)
+        except Exception:  # noqa
+            pass
+        if cache_off and calls["backend"] != before["backend"]:
+            out.append(f"caching disabled for {o} (ctx={step.get('ctx')}) but validate() reached the cache backend")
+        before = dict(calls)
         try:
             if step.get("ctx") == "cache":
                 with lc.disabled():
@@ -61,7 +74,8 @@ def run_case(case):
             got = "err"
         if got != want:
             out.append(f"evaluation of {o} (ctx={step.get('ctx')}) returned {got!r}, expected {want!r}")
-        cache_off = step.get("ctx") == "cache" or o.get("LABREA", {}).get("CACHE", {}).get("DISABLED") or o.get("LABREA", {}).get("CACHE", {}).get("DISABLE")
+        if cache_off and calls["backend"] != before["backend"]:
+            out.append(f"caching disabled for {o} (ctx={step.get('ctx')}) but evaluate() reached the cache backend")
         if cache_off and "A" in o and calls["body"] != before["body"] + 1:
             out.append(f"caching disabled for {o} but the body did not run")
         eff_off = o.get("LABREA", {}).get("EFFECTS", {}).get("DISABLED")
